@@ -111,7 +111,7 @@ theorem usable_iff_success (c : Cfg) (atype : UInt8) (tmo : Nat) (arr : List (Na
   cases hs : findSplit isRar (visible (min tmo raTimeoutMs) (timeline {} arr)) with
   | none =>
     constructor
-    · intro h; by_cases ht : tmo < raTimeoutMs <;> simp [connRes, ht] at h
+    · intro h; by_cases ht : tmo ≤ raTimeoutMs <;> simp [connRes, ht] at h
     · rintro ⟨pre, s, t, post, e, hpre⟩
       rw [e, findSplit_complete isRar pre post _ rfl hpre] at hs; cases hs
   | some r =>
@@ -340,13 +340,14 @@ theorem tail_requeue_order_iff (p r : Frame → Bool) (q pre post : List Frame) 
 
 /-! ### write -/
 
-/-- `DoIPTransport.write` (caller timeout not below the acknowledgement time) completes iff the first frame that
+/-- `DoIPTransport.write` (caller timeout above the acknowledgement time; at a tie the caller's timer, armed first,
+    wins: `write_caller_timeout`) completes iff the first frame that
     passes the acknowledgement test - among what is queued and what arrives within the acknowledgement time - is a
     positive acknowledgement or a `TargetUnreachable` negative one; otherwise it fails with a connection error
     (`DoIPNegativeAckError` is a `BrokenPipeError`) no later than the acknowledgement time, and when no
     acknowledgement shows up at all the connection is closed exactly at that time -/
 theorem write_completes_iff_acked (c : Cfg) (s : St) (data : Bytes) (tmo : Nat) (arr : List (Nat × Bytes))
-    (hc : s.closed = false) (hd : NoDeath (timeline s arr)) (htmo : ackTimeoutMs ≤ tmo) :
+    (hc : s.closed = false) (hd : NoDeath (timeline s arr)) (htmo : ackTimeoutMs < tmo) :
     ((opWrite c s data tmo arr).1 = .ok ↔
       ∃ pre f post, s.queue ++ visible (s.now + ackTimeoutMs) (timeline s arr) = pre ++ f :: post ∧
         (∀ y ∈ pre, ackMatch c data y = false) ∧ ackMatch c data f = true ∧ accepted f = true) ∧
@@ -356,9 +357,9 @@ theorem write_completes_iff_acked (c : Cfg) (s : St) (data : Bytes) (tmo : Nat) 
     ((∀ y ∈ s.queue ++ visible (s.now + ackTimeoutMs) (timeline s arr), ackMatch c data y = false) →
       (opWrite c s data tmo arr).1 = .conn ∧ (opWrite c s data tmo arr).2.2.closed = true) := by
   obtain ⟨h1, h2, h3, _⟩ := opWrite_spec c s data tmo arr hc hd
-  have hm : min tmo ackTimeoutMs = ackTimeoutMs := Nat.min_eq_right htmo
+  have hm : min tmo ackTimeoutMs = ackTimeoutMs := Nat.min_eq_right (Nat.le_of_lt htmo)
   rw [hm] at h1 h2 h3
-  have hnt : ¬ tmo < ackTimeoutMs := by omega
+  have hnt : ¬ tmo ≤ ackTimeoutMs := by omega
   unfold waitRef at h1 h3
   cases hs : findSplit (ackMatch c data) (s.queue ++ visible (s.now + ackTimeoutMs) (timeline s arr)) with
   | none =>
@@ -392,15 +393,15 @@ theorem write_completes_iff_acked (c : Cfg) (s : St) (data : Bytes) (tmo : Nat) 
       have := hall f (by rw [e1]; simp)
       rw [e2] at this; cases this
 
-/-- a write given up by the caller's own (shorter) timeout: reported as a timeout, the connection stays open and
+/-- a write given up by the caller's own timeout (not above the acknowledgement time): reported as a timeout, the connection stays open and
     every frame skipped meanwhile is still queued, in arrival order -/
 theorem write_caller_timeout (c : Cfg) (s : St) (data : Bytes) (tmo : Nat) (arr : List (Nat × Bytes))
-    (hc : s.closed = false) (hd : NoDeath (timeline s arr)) (ht : tmo < ackTimeoutMs)
+    (hc : s.closed = false) (hd : NoDeath (timeline s arr)) (ht : tmo ≤ ackTimeoutMs)
     (hall : ∀ y ∈ s.queue ++ visible (s.now + tmo) (timeline s arr), ackMatch c data y = false) :
     (opWrite c s data tmo arr).1 = .timeout ∧ (opWrite c s data tmo arr).2.2.closed = false ∧
     (opWrite c s data tmo arr).2.2.queue = s.queue ++ allFrames (timeline s arr) := by
   obtain ⟨h1, _, h3, h4⟩ := opWrite_spec c s data tmo arr hc hd
-  have hm : min tmo ackTimeoutMs = tmo := Nat.min_eq_left (Nat.le_of_lt ht)
+  have hm : min tmo ackTimeoutMs = tmo := Nat.min_eq_left ht
   rw [hm] at h1 h3 h4
   have hw : waitRef (ackMatch c data) (s.queue ++ visible (s.now + tmo) (timeline s arr)) = .timeout := by
     unfold waitRef; rw [(findSplit_none_iff _ _).mpr hall]
